@@ -51,9 +51,9 @@ scen('selector-two', lambda o: SUB + PT + mk.class_src('K', ['t = Int(1)', 'u = 
 scen('selector-seq', lambda o: SUB + mk.class_src('K', ['t = Int(1)', 'l = Ref(t.chooses({1: Int(2), 3: Sub()}), default=0).repeated(2, default=[])'], o),
      [b'\x03\x01A\x00', b'\x03\x00\x02BC', b'\x01\x00\x07\x00\x06'], [{}])
 scen('marker', lambda o: mk.class_src('K', ['d = Data(until_marker=b"\\x00")', 'e = Data(until_marker=b"ab", include_delimiter=True)', 'z = Int(1)'], o),
-     [b'xy\x00qab\x01', b'\x00ab\x02', b'k\x00ab\x03'], [{}, {'d': b'v', 'e': b'ab'}])
+     [b'xy\x00qab\x01', b'\x00ab\x02', b'k\x00ab\x03'], [{}, {'d': b'v', 'e': b'ab'}], tags=['bytes-field'])
 scen('regex-kept', lambda o: mk.class_src('K', ['d = Data(until_marker=re.compile(b"X+"), include_delimiter=True)', 'z = Int(1)'], o),
-     [b'abXXX\x01', b'cdX\x02', b'X\x03'], [{}, {'d': b'qX'}])
+     [b'abXXX\x01', b'cdX\x02', b'X\x03'], [{}, {'d': b'qX'}], tags=['bytes-field'])
 scen('regex-nonkept', lambda o: mk.class_src('K', ['d = Data(until_marker=re.compile(b"X+"))', 'z = Int(1)'], o),
      [b'abXXX\x01', b'cdX\x02', b'XX\x03'], [{}, {'d': b'q'}], tags=['regex-nonkept'])
 scen('regex-nonkept-seq', lambda o: mk.class_src('K', ['n = Int(1)', 'l = Data(until_marker=re.compile(b"X+")).repeated(n)', 'o = Data(until_marker=re.compile(b"Y+")).when(n)', 'z = Int(1)'], o),
@@ -127,6 +127,8 @@ def snap(p):
         return tuple(out)
     if isinstance(p, list):
         return [snap(x) for x in p]
+    if isinstance(p, bytearray):
+        return ('bytearray', bytes(p))          # a copy: the buffer may be changed in place later
     return p
 
 
@@ -173,6 +175,10 @@ def op_alphabet(sc, classes):
     for slot in range(3):
         for what in ('scalar', 'bytes', 'append', 'nested', 'deep', 'pack'):
             ops.append((what, slot))
+    if 'bytes-field' in sc['tags']:
+        # the value of a byte-string field is a MUTABLE buffer the program owns (a bytearray it fills incrementally)
+        ops.append(('bytearray', 0))
+        ops.append(('bytearray', 1))
     if 'origin' in sc['tags']:
         ops.append(('origin', 0))
     return ops
@@ -236,6 +242,12 @@ def apply_op(mod, sc, live, op):
         if nm is None:
             return None
         setattr(p, nm, (v + 1) % 7 if isinstance(v, int) else v + b'!')
+        return slot
+    if kind == 'bytearray':
+        nm, v = first_field(p, lambda v: isinstance(v, (bytes, bytearray)))
+        if nm is None:
+            return None
+        setattr(p, nm, bytearray(bytes(v) + b'~'))
         return slot
     if kind == 'bytes':
         nm, v = first_field(p, lambda v: isinstance(v, bytes))
